@@ -286,7 +286,7 @@ def obligations(tier):
     # public API only (no internals named): bounded container histories, writer then reader.  Always run, so that a
     # refactoring which renames the state variables (steps skipped above) is still checked.
     from harness.C01 import ob_history
-    K = 4 if quick else 6
+    K = 4 if quick else 5
     obs.append(Ob('history[public,K<=%d]' % K, ob_history, dict(K=K, encs=['utf-16', 'latin-1'], N=1),
                   must_reach=['DiffXReader.iter_sections'], path_timeout=30,
                   desc='container histories up to %d containers through the public writer and reader, each container '
